@@ -105,7 +105,34 @@ def check_C01(tier, seed, res, replay=None):
     import cli_arm
     nt_cases = [c for c in cases if nontrivial_pair(c)]
     rng.shuffle(nt_cases)
-    cli_arm.judge(res, rd, "incl", cli_arm.incl_events(nt_cases[:6000 if tier == "thorough" else 1200], rd), "TraceTA.tla")
+    # a quarter of the CLI sample is drawn from ALL cases: degenerate operands (no final state, useless final states, no rules)
+    # go through the tool's own preparation code as well
+    rest = [c for c in cases if not nontrivial_pair(c) and c.get("op") == "incl"]
+    rng.shuffle(rest)
+    ncli = 6000 if tier == "thorough" else 1200
+    # ... and a small DEGENERATE family, every combination of operand shapes: as it is / no final state / only useless final
+    # states (a final state without rules, or one that needs an unproductive child) / no rules at all
+    def degrade(a, how):
+        a = {"fin": list(a["fin"]), "rules": [list(r) for r in a["rules"]]}
+        top = max(list(vlib.ta_states(a)) + [0]) + 1
+        if how == "nofin":
+            a["fin"] = []
+        elif how == "uselessfin":
+            a["fin"] = [top]
+            if rng.random() < 0.5 and a["rules"]:
+                a["rules"].append([a["rules"][0][0] + "z", [top + 1], top])
+        elif how == "norules":
+            a["rules"] = []
+        return a
+    degen = []
+    base = nt_cases[:40 if tier == "thorough" else 8]
+    for bi, c in enumerate(base):
+        for ha in ("asis", "nofin", "uselessfin", "norules"):
+            for hb in ("asis", "nofin", "uselessfin", "norules"):
+                A2, B2 = degrade(c["A"], ha), degrade(c["B"], hb)
+                degen.append({"id": ["degen", bi, ha, hb], "op": "incl", "A": A2, "B": B2, "syms": gen.syms_of(A2, B2), "src": "degenerate"})
+    run_events(res, rd, "degen", degen)
+    cli_arm.judge(res, rd, "incl", cli_arm.incl_events(nt_cases[:ncli] + rest[:ncli // 3] + degen, rd), "TraceTA.tla")
     binding_inclup(res, rd, tier, [c for c in cases if nontrivial_pair(c)], rng)
     binding_incldown(res, rd, tier, [c for c in cases if nontrivial_pair(c)], rng)
     # Layer 0: the oracle itself, cross-checked against the naive tree semantics (never depends on the code)
@@ -383,7 +410,10 @@ def check_C02(tier, seed, res, replay=None):
     import cli_arm
     pick = [c for c in cases if c["op"] in ("union", "isect") and nontrivial_both_nonempty(c)]
     rng.shuffle(pick)
-    cli_cases = [{"id": c["id"], "cmd": c["op"], "A": c["A"], "B": c["B"]} for c in pick[:6000 if tier == "thorough" else 1200]]
+    rest = [c for c in cases if c["op"] in ("union", "isect") and not nontrivial_both_nonempty(c)]
+    rng.shuffle(rest)
+    ncli = 6000 if tier == "thorough" else 1200
+    cli_cases = [{"id": c["id"], "cmd": c["op"], "A": c["A"], "B": c["B"]} for c in pick[:ncli] + rest[:ncli // 4]]
     cli_arm.judge(res, rd, "c02", cli_arm.ta_op_events(cli_cases, rd), "TraceTA.tla")
     # agreement arm: consequences of the contracts on many more random pairs, judged by TLC only where suspicious
     nb, per = (800, 20000) if tier == "thorough" else (64, 10000)
